@@ -50,6 +50,12 @@ CLAIMED.update({
             "a connection's sink is closed before its descriptor (slot index) is released. The interleavings themselves are not explored (not a linearizability argument).", "§4 C17"),
 })
 
+CLAIMED.update({
+    "C18": ("static enumeration of blocking primitives with bounded-by rules (timer/stop-signal select cases, receive-until-closed, timeouts, deadlines) and a reviewed table; must-precede and signal-once path rules",
+            "Every blocking primitive in production functions is bounded by rule or by a reviewed-table entry that states what bounds it (listed as 'assumed' obligations); the stop signal is wired to the active session's abort; "
+            "connection I/O runs only after a non-zero deadline was applied; the bufferer closes and signals before its timed wait; listener and connections are closed on stop; no Signal/close can run twice on a path. The numeric bound is not decided.", "§4 C18"),
+})
+
 NOT_YET = {}
 
 NOT_APPLICABLE = {
@@ -68,7 +74,7 @@ def main():
             checks.append({
                 "property_id": p,
                 "quick_cmd": "bin/slogcheck -repo /repo -property %s -tier quick" % p,
-                "thorough_cmd": "bin/slogcheck -repo /repo -property %s -tier thorough && python3 selftest/run_mutants.py --property %s --jobs 8" % (p, p),
+                "thorough_cmd": "bin/slogcheck -repo /repo -property %s -tier thorough && python3 selftest/run_mutants.py --property %s --jobs 8 && selftest/run_seeded.sh %s" % (p, p, p),
                 "evidence_file": "/verif/evidence/%s.json" % p,
                 "replay_cmd_template": "bin/slogcheck -repo /repo -replay {path}",
                 "engine": "slogcheck",
